@@ -21,7 +21,7 @@ from checks import bundleparse as BP  # noqa: E402
 PROP = 'C08'
 LEVEL = 'exploration'
 VERSION = 1
-BUDGET = {'quick': 50, 'thorough': 600}
+BUDGET = {'quick': 80, 'thorough': 600}
 CHUNK = {'quick': 25, 'thorough': 50}
 RULE = ('one case = one seeded deployment (backend, meta size/buffer, minimize_meta_requests, bulk_meta_tiles, '
         'concurrent_tile_creators, 1-3 processes x 1-3 client threads, 1-2 requests each for the same tile / tiles of one '
